@@ -436,7 +436,8 @@ def _remote_case(args):
                             CORE, "wrong-data", case, "area_um of f1", tags))
                 finally:
                     ds.close()
-        elif variant in ("remote-type-local-path", "old-style-definition"):
+        elif variant in ("remote-type-local-path", "internal-type-local-path",
+                         "old-style-definition"):
             import json
             from dclab.rtdc_dataset.writer import RTDCWriter
             paths = write_graph(d, 3, [])           # three files, no edges
@@ -450,12 +451,20 @@ def _remote_case(args):
                     del h5["basins"][k]
                     h5["basins"].create_dataset(
                         k, data=np.array([json.dumps(bd).encode()]))
-            if variant == "remote-type-local-path":
-                # a definition that claims to be remote but names a local
-                # file in the local-file format
+            if variant.endswith("-type-local-path"):
+                # a definition that claims to be remote / internal but names
+                # a local file in the local-file format
+                claimed = variant.split("-")[0]
                 with RTDCWriter(paths[0], mode="append") as hw:
-                    hw.store_basin("claims-remote", "remote", "hdf5",
+                    hw.store_basin("claims", "remote", "hdf5",
                                    [str(paths[1])], verify=False)
+                if claimed == "internal":
+                    def retype(bd):
+                        bd["type"] = "internal"
+                        bd["paths"] = bd.pop("urls", bd.get("paths"))
+                        return bd
+                    with h5py.File(paths[0], "a") as h5:
+                        rewrite(h5, retype)
                 for p_ in paths:
                     host.add(f"http://vf.example/{p_.name}", p_.read_bytes())
                 opened = []
@@ -477,7 +486,7 @@ def _remote_case(args):
                 if local or offered:
                     out.append(violation(
                         CORE, "local-basin-opened-from-network-format", case,
-                        f"a definition of type 'remote' / format 'hdf5' "
+                        f"a definition of type '{claimed}' / format 'hdf5' "
                         f"made an RTDC_HTTP dataset open {local} (feature "
                         f"offered: {offered})", tags))
             else:
@@ -563,7 +572,8 @@ def run(ctx):
     res += par.pmap(_remote_case, [(v, scratch) for v in (
         "remote-chain", "http-open", "remote-unreachable",
         "internal-behind-file", "internal-http", "internal-behind-remote",
-        "remote-type-local-path", "old-style-definition")])
+        "remote-type-local-path", "internal-type-local-path",
+        "old-style-definition")])
     viols = []
     cnt = 0
     nontriv = 0
